@@ -1,5 +1,7 @@
 import FqModel.Dump
 import FqModel.C10Json
+import FqModel.C10Float
+import Proofs.C10Float
 import Proofs.C10Writers
 import Proofs.C10Num
 import Proofs.C10Json
@@ -12,7 +14,7 @@ import Proofs.C10Ansi
   byte string, width ≥ 1, start offset, chunking, base 2..36 and integer — no size bound.
 -/
 namespace Props.C10
-open FqModel.Dump FqModel.C10Json Proofs.C10Writers Proofs.C10Num Proofs.C10Json Proofs.C10Dump Proofs.C10Flush Proofs.C10Ansi FqModel.Ansi
+open FqModel.Dump FqModel.C10Json Proofs.C10Writers Proofs.C10Num Proofs.C10Json Proofs.C10Dump Proofs.C10Flush Proofs.C10Ansi FqModel.Ansi Proofs.C10Float
 
 /-! ### hexpairwriter -/
 
@@ -455,5 +457,131 @@ theorem header_overflow_witness :
     ((flush (mkCols ⟨5, 2, 10, 0⟩ 0 [] (hexHeader ⟨5, 2, 10, 0⟩) (asciiHeader ⟨5, 2, 10, 0⟩) [])).head?
       = some "|00 01 10 11 10|01010|".toList) := by
   decide
+
+/-! ### FLOAT-valued JSON numbers
+
+  `floatTextTrue bits text` (FqModel/C10Float.lean): `text` is a JSON number whose exact decimal
+  value rounds (nearest, ties to even) to the binary64 with bit pattern `bits` — the text READS
+  BACK to the float.  strconv's shortest-digit choice is not modelled; the driver evaluates this
+  predicate on every number fq prints for a float (op `jsonf`).  Full statement wanted:
+  "for every binary64 x, what fq prints for x is true for x" — this needs a model of
+  strconv.AppendFloat (Ryu/Grisu shortest digits) and is NOT proved; proved instead: the
+  predicate accepts the exact integer text of every integer-valued float (so the integer fast path
+  some encoders take is judged exactly), fixes the sign, and rejects the int64 wrap-around. -/
+
+/-- For EVERY finite integer-valued binary64 (any magnitude, in particular |x| < 2^63) other than
+    ±0, the decimal integer text of its exact value is a true rendering. -/
+theorem float_text_true_int (bits : Nat) (n : Int) (hb : bits < 2 ^ 64)
+    (hv : floatIntValue bits = some n) (hn : n ≠ 0) :
+    floatTextTrue bits (encInt n) = true := by
+  unfold floatTextTrue
+  rw [parseNumber_encInt]
+  unfold floatIntValue at hv
+  simp only at hv
+  split at hv
+  · exact absurd hv (by simp)
+  · rename_i hfin
+    split at hv
+    · rename_i hmod
+      have hdiv : magS (bits % 2 ^ 63) / 2 ^ 1074 * 2 ^ 1074 = magS (bits % 2 ^ 63) :=
+        Nat.div_mul_cancel (Nat.dvd_of_mod_eq_zero hmod)
+      split at hv
+      · rename_i hs
+        have hv' := Option.some.inj hv
+        have hneg : n < 0 := by
+          rw [← hv'] at hn ⊢
+          omega
+        have hk : n.natAbs = magS (bits % 2 ^ 63) / 2 ^ 1074 := by rw [← hv']; omega
+        have := decRoundsTo_exact bits n.natAbs hb (by omega) (by rw [hk]; exact hdiv)
+        simpa [hneg, hs] using this
+      · rename_i hs
+        have hv' := Option.some.inj hv
+        have hneg : ¬ n < 0 := by rw [← hv']; omega
+        have hk : n.natAbs = magS (bits % 2 ^ 63) / 2 ^ 1074 := by rw [← hv']; omega
+        have := decRoundsTo_exact bits n.natAbs hb (by omega) (by rw [hk]; exact hdiv)
+        simpa [hneg, hs] using this
+    · exact absurd hv (by simp)
+
+set_option exponentiation.threshold 4096 in
+/-- non-vacuity: the float 2^63 is integer valued, its text is `9223372036854775808`; the float
+    −(2^53+2) likewise -/
+example : floatIntValue 0x43E0000000000000 = some (2 ^ 63)
+    ∧ encInt (2 ^ 63) = "9223372036854775808".toList
+    ∧ floatIntValue 0xC340000000000001 = some (-(2 ^ 53 + 2)) := by decide +kernel
+
+set_option exponentiation.threshold 4096 in
+/-- zero: `0` is true for +0 only, `-0` for −0 only (jq keeps the sign of zero) -/
+theorem float_text_zero :
+    floatTextTrue 0 "0".toList = true ∧ floatTextTrue (2 ^ 63) "-0".toList = true
+      ∧ floatTextTrue (2 ^ 63) "0".toList = false ∧ floatTextTrue 0 "-0".toList = false := by
+  decide +kernel
+
+/-- a true text carries the float's sign: it starts with `-` exactly when the sign bit is set -/
+theorem float_text_sign (bits : Nat) (text : List Char) (h : floatTextTrue bits text = true) :
+    text.head? = some '-' ↔ 2 ^ 63 ≤ bits := by
+  unfold floatTextTrue at h
+  split at h
+  · exact absurd h (by simp)
+  · rename_i neg m e hp
+    have hs : neg = decide (bits ≥ 2 ^ 63) := by
+      unfold decRoundsTo at h
+      simp only [Bool.and_eq_true, beq_iff_eq] at h
+      exact h.1.1.2
+    unfold parseJsonNumberExact at hp
+    split at hp
+    · cases hu : parseUnsignedNumber _ with
+      | none => rw [hu] at hp; exact absurd hp (by simp)
+      | some me =>
+        rw [hu] at hp
+        have : neg = true := by simp [Option.map] at hp; exact hp.1
+        rw [this] at hs
+        simpa using hs.symm
+    · rename_i hnot
+      cases hu : parseUnsignedNumber text with
+      | none => rw [hu] at hp; exact absurd hp (by simp)
+      | some me =>
+        rw [hu] at hp
+        have hneg : neg = false := by simp [Option.map] at hp; exact hp.1
+        rw [hneg] at hs
+        have hb : ¬ 2 ^ 63 ≤ bits := by simpa using hs.symm
+        constructor
+        · intro hh
+          cases text with
+          | nil => simp at hh
+          | cons c cs =>
+            have : c = '-' := by simpa using hh
+            subst this
+            exact absurd rfl (hnot cs)
+        · intro h2; exact absurd h2 hb
+
+set_option exponentiation.threshold 4096 in
+example : floatTextTrue 0xBFB999999999999A "-0.1".toList = true
+    ∧ floatTextTrue 0x3FB999999999999A "1e-1".toList = true := by decide +kernel
+
+set_option exponentiation.threshold 4096 in
+/-- WITNESS of the defect class "integer-valued floats printed through int64": the float 2^63
+    passes a guard `f <= math.MaxInt64` (the constant rounds up to 2^63 as a float64), `int64(f)`
+    wraps, and the text `-9223372036854775808` is NOT a true rendering of 2^63; the true integer text
+    and strconv's `9223372036854776000` are. -/
+theorem float_text_wrap_witness :
+    floatTextTrue 0x43E0000000000000 "-9223372036854775808".toList = false
+      ∧ floatTextTrue 0x43E0000000000000 "9223372036854775808".toList = true
+      ∧ floatTextTrue 0x43E0000000000000 "9223372036854776000".toList = true := by
+  decide +kernel
+
+set_option exponentiation.threshold 4096 in
+/-- the rounding interval is exact at its ends: 2^53+1 lies halfway between the floats 2^53 and
+    2^53+2 and reads back to the even one; the smallest subnormal and the largest finite float read
+    back from strconv's shortest texts; anything at or above the overflow threshold is not a text of
+    MaxFloat64 -/
+theorem float_text_boundaries :
+    floatTextTrue 0x4340000000000000 "9007199254740993".toList = true
+      ∧ floatTextTrue 0x4340000000000001 "9007199254740993".toList = false
+      ∧ floatTextTrue 1 "5e-324".toList = true
+      ∧ floatTextTrue maxFloatBits "1.7976931348623157e+308".toList = true
+      ∧ floatTextTrue maxFloatBits "1.7976931348623159e+308".toList = false
+      ∧ floatShownTrue infBits "1.7976931348623157e+308".toList = true
+      ∧ floatShownTrue (infBits + 1) "null".toList = true := by
+  decide +kernel
 
 end Props.C10
